@@ -2,7 +2,7 @@
    Evaluated either by vm_compute inside coqc or by the OCaml program extracted from this file. *)
 From Coq Require Import ZArith List Bool String Ascii.
 From Coq.Strings Require Import Byte.
-From CP Require Import Core.Bytes Core.Result Core.Show Prim.Int Prim.Mpint Prim.Timestamp Base.Enum.
+From CP Require Import Core.Bytes Core.Result Core.Show Prim.Int Prim.Mpint Prim.Timestamp Base.Enum Base.Array.
 From CPGen Require Import Tables.
 Import ListNotations.
 Open Scope string_scope.
@@ -62,8 +62,62 @@ Definition opaque_enum (name : string) : option (vparam * list bytes) :=
   | None => None
   end.
 
+(* ---- vector edit histories: items are (tag, size) pairs; bounds come from the generated array_params ---- *)
+Definition vitem := (Z * Z)%type.
+Definition vitem_sz (x : vitem) : Z := snd x.
+Definition vitem_eqb (a b : vitem) : bool := (fst a =? fst b) && (snd a =? snd b).
+Definition vitem_of_string (s : string) : vitem :=
+  match split_on ":" s "" with [a; b] => (z_of_string a, z_of_string b) | _ => (0, 0) end.
+Definition vitems_of_string (s : string) : list vitem :=
+  if String.eqb s "-" then [] else map vitem_of_string (split_on "," s "").
+Definition show_vitem (x : vitem) : string := string_of_Z (fst x) ++ ":" ++ string_of_Z (snd x).
+Definition optz (s : string) : option Z := if String.eqb s "_" then None else Some (z_of_string s).
+Definition vop_of_string (s : string) : option (@op vitem) :=
+  match split_on "/" s "" with
+  | ["app"; x] => Some (Append (vitem_of_string x))
+  | ["ins"; i; x] => Some (Insert (z_of_string i) (vitem_of_string x))
+  | ["del"; i] => Some (DelIdx (z_of_string i))
+  | ["set"; i; x] => Some (SetIdx (z_of_string i) (vitem_of_string x))
+  | ["dsl"; a; b] => Some (DelSlice (optz a) (optz b))
+  | ["ssl"; a; b; xs] => Some (SetSlice (optz a) (optz b) (vitems_of_string xs))
+  | ["ext"; xs] => Some (Extend (vitems_of_string xs))
+  | ["iadd"; xs] => Some (IAdd (vitems_of_string xs))
+  | ["pop"; i] => Some (Pop (optz i))
+  | ["rem"; x] => Some (Remove (vitem_of_string x))
+  | ["rev"] => Some Reverse
+  | ["clr"] => Some Clear
+  | _ => None
+  end.
+Definition show_outcome (o : @outcome) : string :=
+  match o with
+  | Accepted => "A"
+  | Refused (NotEnoughData _) => "R:NotEnoughData"
+  | Refused (TooMuchData _) => "R:TooMuchData"
+  | Refused (Leak e) => "R:" ++ show_exn e
+  | Refused _ => "R:?"
+  end.
+Fixpoint run_vops (mn mx : Z) (v : @vec vitem) (ops : list string) (acc : list string) : string :=
+  match ops with
+  | [] => String.concat "," (rev acc) ++ "|" ++ String.concat "," (map show_vitem (items v)) ++ "|" ++ string_of_Z (isz v)
+  | o :: r => match vop_of_string o with
+              | None => "BADCMD"
+              | Some op => let (v', out) := step vitem_sz vitem_eqb mn mx v op in run_vops mn mx v' r (show_outcome out :: acc)
+              end
+  end.
+Definition array_bounds (name : string) : Z * Z :=
+  match find (fun t => String.eqb (fst t) name) array_params with
+  | Some (_, (_, (mn, mx, _, _))) => (mn, mx)
+  | None => (0, -1)
+  end.
+
 Definition run_words (ws : list string) : string :=
   match ws with
+  | ["vec"; cls; init; ops] =>
+      let (mn, mx) := array_bounds cls in
+      match mk_vec vitem_sz mn mx (vitems_of_string init) with
+      | Ok v => run_vops mn mx v (if String.eqb ops "-" then [] else split_on ";" ops "") []
+      | Err e => show_err e
+      end
   | ["popq"; t; h] => match opaque_enum t with
                       | Some (p, tbl) => show_result show_in (parse_opaque_enum p tbl (bytes_of_hex h))
                       | None => "BADCMD" end
